@@ -11,6 +11,7 @@ import (
 	"regexp"
 	"runtime"
 	"strings"
+	"sync"
 	"time"
 
 	"github.com/crewjam/saml"
@@ -71,22 +72,26 @@ func startServer(store samlidp.Store, minimal bool) (srv *samlidp.Server, err er
 		p any
 	}
 	ch := make(chan out, 1)
+	done := make(chan struct{})
+	g := newGidSet()
 	go func() {
+		id := g.enter()
 		var o out
 		defer func() {
 			if p := recover(); p != nil {
 				o.p = p
 			}
 			ch <- o
+			g.leave(id)
+			close(done)
 		}()
 		o.s, o.e = newServerOpt(store, minimal)
 	}()
-	select {
-	case o := <-ch:
-		return o.s, o.e, false, o.p
-	case <-time.After(startupDeadline):
+	if waitDone(done, startupDeadline, g.list) {
 		return nil, nil, true, nil
 	}
+	o := <-ch
+	return o.s, o.e, false, o.p
 }
 
 // escSeg percent-encodes a name as ONE path segment (slashes, dots, percent signs and all):
@@ -340,6 +345,91 @@ func serveDeadline(h http.Handler, q reqSpec, d time.Duration) (rec *recorder, p
 		}
 	}
 	return nil, nil, true
+}
+
+// gidSet collects the ids of the goroutines a wait depends on; finished ones are removed.
+type gidSet struct {
+	mu  sync.Mutex
+	ids map[string]bool
+}
+
+func newGidSet() *gidSet { return &gidSet{ids: map[string]bool{}} }
+func (g *gidSet) enter() string {
+	id := goroutineID()
+	g.mu.Lock()
+	g.ids[id] = true
+	g.mu.Unlock()
+	return id
+}
+func (g *gidSet) leave(id string) {
+	g.mu.Lock()
+	delete(g.ids, id)
+	g.mu.Unlock()
+}
+func (g *gidSet) list() []string {
+	g.mu.Lock()
+	defer g.mu.Unlock()
+	var out []string
+	for id := range g.ids {
+		out = append(out, id)
+	}
+	return out
+}
+
+// allBlocked: every listed goroutine waits for a lock, a semaphore, a channel or a condition
+func allBlocked(ids []string) bool {
+	if len(ids) == 0 {
+		return false
+	}
+	for _, id := range ids {
+		if !goroutineBlocked(id) {
+			return false
+		}
+	}
+	return true
+}
+
+// waitDone waits for done.  After the deadline d it is declared hung only when the goroutines it
+// waits for (pending()) are all BLOCKED on two samples one second apart; while any of them is running
+// or runnable the wait goes on (cap: two minutes), so a loaded machine cannot produce the verdict.
+func waitDone(done <-chan struct{}, d time.Duration, pending func() []string) (hung bool) {
+	t := time.NewTimer(d)
+	defer t.Stop()
+	select {
+	case <-done:
+		return false
+	case <-t.C:
+	}
+	if confirmHung(done, pending) {
+		return true
+	}
+	<-done // nothing is blocked: whatever is still pending is running and will finish
+	return false
+}
+
+// confirmHung: see waitDone; an empty pending() means the condition has gone away
+func confirmHung(done <-chan struct{}, pending func() []string) bool {
+	samples := 0
+	for waited := 0; waited < 120; waited++ {
+		ids := pending()
+		if len(ids) == 0 {
+			return false
+		}
+		if allBlocked(ids) {
+			samples++
+			if samples >= 2 {
+				return true
+			}
+		} else {
+			samples = 0
+		}
+		select {
+		case <-done:
+			return false
+		case <-time.After(time.Second):
+		}
+	}
+	return true
 }
 
 var reGoroutineHeader = regexp.MustCompile(`(?m)^goroutine (\d+) \[([^\]]*)\]:`)
